@@ -129,3 +129,8 @@ Proof.
       rewrite ?negb_involutive, ?existsb_dom_agree;
       destruct (existsb (fun c => dominates c c2) kept); cbn [negb]; rewrite ?IH; reflexivity ].
 Qed.
+
+(* the issubclass fallback at the end of typeorder, as the model's tord_body spells it *)
+Lemma cls_tail_agree s12 s21 :
+  cls_tail_src s12 s21 = (if s12 && s21 then SAME else if s12 then LESS else if s21 then MORE else NONE).
+Proof. destruct s12, s21; reflexivity. Qed.
